@@ -15,7 +15,9 @@ def sh(cmd, **kw):
 
 shas = {}
 if not nofix:
-    for patch in sorted(glob.glob(os.path.join(V, 'fixes', pid + '-*.patch'))):
+    order = [a.split('=',1)[1].split(',') for a in sys.argv if a.startswith('--patches=')]
+    plist = [os.path.join(V, 'fixes', x) for x in order[0]] if order else sorted(glob.glob(os.path.join(V, 'fixes', pid + '-*.patch')))
+    for patch in plist:
         subj = [l for l in open(patch) if l.startswith('Subject:')][0]
         if 'fix:' not in subj:
             sys.exit('patch %s is not a fix: commit (%s)' % (patch, subj.strip()))
